@@ -9,13 +9,13 @@ def run(ctx):
                     'the harnesses verify what that build runs; a change in /repo/dasp_slice does not reach these nodes')
     ctx.add_assumption('hook Input::verif_new (cfg rustaudio_dasp_verif) lets a harness call Node::process without petgraph')
     note = ('BOUNDED shapes, 64-sample buffers: Pass {1 input x 1 buffer x 2 outputs, no input, 2 buffers x 1 output}; Sum 1 input x 1 '
-            'buffer x 2 outputs; SumBuffers 1 input x 2 buffers x 1 output; Delay ring length 2, one call; signal node 2 channels x 3 '
+            'buffer x 2 outputs; SumBuffers 1 input x 2 buffers x 1 output; Sum / SumBuffers with NO input x 2 stale outputs; Delay ring length 2, one call; signal node 2 channels x 3 '
             'outputs, one call; wrappers (&mut, Box, BoxedNode, BoxedNodeSend, fn, dyn FnMut, dyn Fn) around Pass. Sum inputs are a '
             'constant with one symbolic sample at a symbolic position; Pass/Delay contents fully symbolic. Thorough adds: Sum 2 inputs, '
             'SumBuffers 2 outputs, Delay 2 calls x 2 channels, signal node 2 calls (each may be reported NOT COVERED)')
     ctx.bounded.append(note)
     ctx.add_assumption('NOT covered: GraphNode (nested graph => petgraph, infeasible for CBMC), unbounded input counts, larger shapes')
-    quick = ['c16_pass', 'c16_sum_1in', 'c16_sum_buffers_1in_2buf_1out', 'c16_delay_1call', 'c16_signal_node', 'c16_wrappers']   # c16_wrappers also matches c16_wrappers_forward_every_call
+    quick = ['c16_pass', 'c16_sum_1in', 'c16_sum_buffers_1in_2buf_1out', 'c16_delay_1call', 'c16_signal_node', 'c16_wrappers', 'c16_sum_nodes_no_input']   # c16_wrappers also matches c16_wrappers_forward_every_call
     run_kani(ctx, 'graph_nodes', harness=quick, rustflags='--cfg rustaudio_dasp_verif', harness_timeout='10m', bounded_note=note)
     if ctx.tier == 'thorough':
         run_kani(ctx, 'graph_nodes', harness=['c16_t_'], rustflags='--cfg rustaudio_dasp_verif', harness_timeout='30m',
